@@ -282,7 +282,14 @@ class Mesh:
         # default boundary names along the dimensions
         minnames = ['left', 'bottom', 'front']
         maxnames = ['right', 'top', 'back']
-        atol = np.min(self.params()) / 1e2
+        # a hundredth of the shortest edge: thin cells (boundary layers) are
+        # thinner than a hundredth of their diameter
+        ends = (self.edges if self.dim() == 3
+                else self.facets if self.dim() == 2
+                else self.t)
+        atol = np.min(np.sqrt(np.sum((self.doflocs[:, ends[0]]
+                                      - self.doflocs[:, ends[1]]) ** 2,
+                                     axis=0))) / 1e2
         for d in range(self.doflocs.shape[0]):
             dmin = np.min(self.doflocs[d])
             # (absolute tolerance only: a tolerance relative to the
